@@ -48,7 +48,31 @@ class AB(A, B):
     pass
 
 
-TYPES = {"A": A, "B": B}
+class _Types(dict):
+    """name -> type.  "L" is the PEP 585 alias list[int]: a NEW object on every access - aliases compare equal but are not
+    identical, which is exactly how user code spells them at different call sites."""
+
+    def __getitem__(self, k: str) -> Any:
+        if k == "L":
+            return list[int]
+        return dict.__getitem__(self, k)
+
+    def items(self):  # type: ignore[override]
+        return [(k, self[k]) for k in self.keys()]
+
+    def values(self):  # type: ignore[override]
+        return [self[k] for k in self.keys()]
+
+
+class L0:
+    def __init__(self, label: str) -> None:
+        self.label = label
+
+    def __repr__(self) -> str:
+        return self.label
+
+
+TYPES = _Types({"A": A, "B": B, "L": None})
 # registration keys: (types, name)
 KEYS = {
     "Ad": (("A",), "default"),
@@ -57,8 +81,10 @@ KEYS = {
     "ABd": (("A", "B"), "default"),
     "BAd": (("B", "A"), "default"),
     "ABx": (("A", "B"), "x"),
+    "Ld": (("L",), "default"),
+    "ALd": (("A", "L"), "default"),
 }
-LOOKUPS = [("A", "default"), ("B", "default"), ("A", "x"), ("B", "x")]
+LOOKUPS = [("A", "default"), ("B", "default"), ("A", "x"), ("B", "x"), ("L", "default")]
 
 
 class HE(Exception):
@@ -158,7 +184,7 @@ class Universe:
                     if ev.source is not ctx or ev.topic != "resource_added":
                         self.fail("events", f"event on c{idx} has source {ev.source!r} topic {ev.topic!r}")
                     self.events[idx].append(
-                        (tuple(t.__name__ for t in ev.resource_types), ev.resource_name, ev.resource_description,
+                        (tuple(getattr(t, "__name__", "L") if t != list[int] else "L" for t in ev.resource_types), ev.resource_name, ev.resource_description,
                          ev.is_factory)
                     )
         finally:
@@ -253,7 +279,7 @@ class Universe:
             if kind == "add":
                 _, keyname, with_td, vlabel, via = op
                 types, name = KEYS[keyname]
-                cls = AB if len(types) > 1 else TYPES[types[0]]
+                cls = (AB if "L" not in types else L0) if len(types) > 1 else (L0 if types[0] == "L" else TYPES[types[0]])
                 val = cls(vlabel)
                 self.labels[id(val)] = vlabel
                 kw: dict[str, Any] = {"description": "d" + vlabel}
@@ -264,7 +290,7 @@ class Universe:
                     kw["teardown_callback"] = td
                 tt = [TYPES[t] for t in types]
                 target = ctx.add_resource if via == "m" else ac.add_resource
-                if len(tt) == 1 and via == "m" and not with_td:
+                if len(tt) == 1 and via == "m" and not with_td and types[0] != "L":
                     target(val, name, **kw)  # types omitted: registered as type(value)
                 else:
                     target(val, name, tt if len(tt) > 1 else tt[0], **kw)
@@ -272,7 +298,7 @@ class Universe:
             if kind == "addf":
                 _, keyname, fkind, flabel, via = op
                 types, name = KEYS[keyname]
-                cls = AB if len(types) > 1 else TYPES[types[0]]
+                cls = (AB if "L" not in types else L0) if len(types) > 1 else (L0 if types[0] == "L" else TYPES[types[0]])
 
                 def make() -> Any:
                     n = self.fac_body_calls.get(flabel, 0) + 1
